@@ -1,47 +1,49 @@
 ---------------------------- MODULE Trace_MapOrd ----------------------------
 (* C14: monitor for parallel.MapIterator / MapStream histories recorded in bubbles.
-   reset(kind, p, buf, gmp). taken(v) = the instrumented source handed item number v (1, 2, ...) to the
+   reset(kind, p, buf, gmp, mctx). taken(v) = the instrumented source handed item number v (1, 2, ...) to the
    library; srcend / srcerr / srcclose; fbegin(v) / fend(v, err) logged by f itself (f(v) = 1000 + v,
    err = 0 or the call's error id 100 + v); call/ret of the consumer's Next (res.k = "val" with res.v,
    "end", "err" with res.e = "src" | "f" (res.v = error id) | "ctx" | "other") and Close; cancel(ctx); q. *)
 EXTENDS Integers, Sequences, FiniteSets, TLC, Json
 Trace == ndJsonDeserialize("trace.ndjson")
-VARIABLES kind, p, buf, gmp, taken, yielded, srcSt, srcClosed, fin, ferr, inF, pend, closed, cancelled, l
-vars == <<kind, p, buf, gmp, taken, yielded, srcSt, srcClosed, fin, ferr, inF, pend, closed, cancelled, l>>
+VARIABLES kind, p, buf, gmp, mctx, taken, yielded, srcSt, srcClosed, fin, ferr, inF, pend, closed, cancelled, l
+vars == <<kind, p, buf, gmp, mctx, taken, yielded, srcSt, srcClosed, fin, ferr, inF, pend, closed, cancelled, l>>
 Ev == Trace[l]
 EffP == IF p <= 0 THEN gmp ELSE p
 Bound == (IF buf > 0 THEN buf ELSE 0) + EffP + 1
-Init == /\ kind = "" /\ p = 1 /\ buf = 0 /\ gmp = 1 /\ taken = 0 /\ yielded = 0 /\ srcSt = 0 /\ srcClosed = 0 /\ fin = {} /\ ferr = {}
+Init == /\ kind = "" /\ p = 1 /\ buf = 0 /\ gmp = 1 /\ mctx = 0 /\ taken = 0 /\ yielded = 0 /\ srcSt = 0 /\ srcClosed = 0 /\ fin = {} /\ ferr = {}
         /\ inF = {} /\ pend = <<>> /\ closed = 0 /\ cancelled = {} /\ l = 1 /\ TLCSet(1, 0)
 Un(vs) == UNCHANGED vs
 Ids == DOMAIN pend
 Failed == ferr # {} \/ srcSt = 2
+\* the context given to MapStream itself (0 = never cancelled): once it is cancelled the stream may fail with its error
+StreamCancelled == mctx # 0 /\ mctx \in cancelled
 Next ==
   /\ l <= Len(Trace) /\ l' = l + 1
-  /\ CASE kind = "done" /\ Ev.ev # "reset" -> Un(<<kind, p, buf, gmp, taken, yielded, srcSt, srcClosed, fin, ferr, inF, pend, closed, cancelled>>)      \* the harness's epilogue is not judged
+  /\ CASE kind = "done" /\ Ev.ev # "reset" -> Un(<<kind, p, buf, gmp, mctx, taken, yielded, srcSt, srcClosed, fin, ferr, inF, pend, closed, cancelled>>)      \* the harness's epilogue is not judged
        [] Ev.ev = "reset" ->
-            /\ kind' = Ev.kind /\ p' = Ev.p /\ buf' = Ev.buf /\ gmp' = Ev.gmp /\ taken' = 0 /\ yielded' = 0 /\ srcSt' = 0 /\ srcClosed' = 0
+            /\ kind' = Ev.kind /\ p' = Ev.p /\ buf' = Ev.buf /\ gmp' = Ev.gmp /\ mctx' = Ev.mctx /\ taken' = 0 /\ yielded' = 0 /\ srcSt' = 0 /\ srcClosed' = 0
             /\ fin' = {} /\ ferr' = {} /\ inF' = {} /\ pend' = <<>> /\ closed' = 0 /\ cancelled' = {}
        [] Ev.ev = "taken" -> /\ taken' = taken + 1 /\ Ev.v = taken + 1
                              \* bounded look-ahead. A Next whose return has not been logged yet may already have
                              \* yielded its result (the ret record is written after the real return), so it counts.
                              /\ (closed = 0 => taken' - (yielded + Cardinality({i \in Ids : pend[i].op = "Next"})) <= Bound)
-                             /\ Un(<<kind, p, buf, gmp, yielded, srcSt, srcClosed, fin, ferr, inF, pend, closed, cancelled>>)
-       [] Ev.ev = "srcend" -> srcSt' = 1 /\ Un(<<kind, p, buf, gmp, taken, yielded, srcClosed, fin, ferr, inF, pend, closed, cancelled>>)
-       [] Ev.ev = "srcerr" -> srcSt' = 2 /\ Un(<<kind, p, buf, gmp, taken, yielded, srcClosed, fin, ferr, inF, pend, closed, cancelled>>)
-       [] Ev.ev = "srcclose" -> srcClosed' = srcClosed + 1 /\ srcClosed' <= 1 /\ Un(<<kind, p, buf, gmp, taken, yielded, srcSt, fin, ferr, inF, pend, closed, cancelled>>)
+                             /\ Un(<<kind, p, buf, gmp, mctx, yielded, srcSt, srcClosed, fin, ferr, inF, pend, closed, cancelled>>)
+       [] Ev.ev = "srcend" -> srcSt' = 1 /\ Un(<<kind, p, buf, gmp, mctx, taken, yielded, srcClosed, fin, ferr, inF, pend, closed, cancelled>>)
+       [] Ev.ev = "srcerr" -> srcSt' = 2 /\ Un(<<kind, p, buf, gmp, mctx, taken, yielded, srcClosed, fin, ferr, inF, pend, closed, cancelled>>)
+       [] Ev.ev = "srcclose" -> srcClosed' = srcClosed + 1 /\ srcClosed' <= 1 /\ Un(<<kind, p, buf, gmp, mctx, taken, yielded, srcSt, fin, ferr, inF, pend, closed, cancelled>>)
        [] Ev.ev = "fbegin" -> /\ Ev.v \in 1..taken /\ Ev.v \notin fin /\ Ev.v \notin inF      \* f once per item
                               /\ inF' = inF \cup {Ev.v} /\ Cardinality(inF') <= EffP           \* at most parallelism calls at a time
-                              /\ Un(<<kind, p, buf, gmp, taken, yielded, srcSt, srcClosed, fin, ferr, pend, closed, cancelled>>)
+                              /\ Un(<<kind, p, buf, gmp, mctx, taken, yielded, srcSt, srcClosed, fin, ferr, pend, closed, cancelled>>)
        [] Ev.ev = "fend" -> /\ Ev.v \in inF /\ inF' = inF \ {Ev.v} /\ fin' = fin \cup {Ev.v}
                             /\ ferr' = (IF Ev.err # 0 THEN ferr \cup {Ev.v} ELSE ferr)
-                            /\ Un(<<kind, p, buf, gmp, taken, yielded, srcSt, srcClosed, pend, closed, cancelled>>)
+                            /\ Un(<<kind, p, buf, gmp, mctx, taken, yielded, srcSt, srcClosed, pend, closed, cancelled>>)
        [] Ev.ev = "srcviol" -> FALSE        \* the instrumented source saw Next after Close / a second Close / overlapping calls (C09)
-       [] Ev.ev = "cancel" -> cancelled' = cancelled \cup {Ev.ctx} /\ Un(<<kind, p, buf, gmp, taken, yielded, srcSt, srcClosed, fin, ferr, inF, pend, closed>>)
-       [] Ev.ev \in {"rel", "item", "leak"} -> Un(<<kind, p, buf, gmp, taken, yielded, srcSt, srcClosed, fin, ferr, inF, pend, closed, cancelled>>)
+       [] Ev.ev = "cancel" -> cancelled' = cancelled \cup {Ev.ctx} /\ Un(<<kind, p, buf, gmp, mctx, taken, yielded, srcSt, srcClosed, fin, ferr, inF, pend, closed>>)
+       [] Ev.ev \in {"rel", "item", "leak"} -> Un(<<kind, p, buf, gmp, mctx, taken, yielded, srcSt, srcClosed, fin, ferr, inF, pend, closed, cancelled>>)
        [] Ev.ev = "call" -> /\ pend' = [i \in Ids \cup {Ev.id} |-> IF i = Ev.id THEN [op |-> Ev.op, ctx |-> Ev.ctx] ELSE pend[i]]
                             /\ closed' = (IF Ev.op = "Close" THEN 1 ELSE closed)
-                            /\ Un(<<kind, p, buf, gmp, taken, yielded, srcSt, srcClosed, fin, ferr, inF, cancelled>>)
+                            /\ Un(<<kind, p, buf, gmp, mctx, taken, yielded, srcSt, srcClosed, fin, ferr, inF, cancelled>>)
        [] Ev.ev = "ret" ->
             /\ Ev.id \in Ids /\ pend' = [i \in Ids \ {Ev.id} |-> pend[i]]
             /\ IF Ev.op = "Next" THEN
@@ -55,15 +57,16 @@ Next ==
                        /\ \/ closed >= 1
                           \/ Ev.res.e = "src" /\ srcSt = 2
                           \/ Ev.res.e = "f" /\ (Ev.res.v - 100) \in ferr
-                          \/ Ev.res.e = "ctx" /\ pend[Ev.id].ctx \in cancelled
-               ELSE closed' = 2 /\ Un(yielded)
-            /\ Un(<<kind, p, buf, gmp, taken, srcSt, srcClosed, fin, ferr, inF, cancelled>>)
+                          \/ Ev.res.e = "ctx" /\ (pend[Ev.id].ctx \in cancelled \/ StreamCancelled)
+               ELSE /\ closed' = 2 /\ Un(yielded)
+                    /\ srcClosed = 1          \* by the time Close returns the source has been closed (C09)
+            /\ Un(<<kind, p, buf, gmp, mctx, taken, srcSt, srcClosed, fin, ferr, inF, cancelled>>)
        [] Ev.ev = "q" ->
-            /\ Un(<<kind, p, buf, gmp, taken, yielded, srcSt, srcClosed, fin, ferr, inF, pend, closed, cancelled>>)
+            /\ Un(<<kind, p, buf, gmp, mctx, taken, yielded, srcSt, srcClosed, fin, ferr, inF, pend, closed, cancelled>>)
             /\ \A i \in Ids :
                  \/ inF # {}                                      \* some call of f is still held by the harness
                  \/ /\ pend[i].op = "Next" /\ closed = 0
-                    /\ pend[i].ctx \notin cancelled
+                    /\ pend[i].ctx \notin cancelled /\ ~StreamCancelled
                     /\ ~Failed                                    \* a failure surfaces
                     /\ ~(yielded + 1 \in fin)                     \* a finished next result is handed out
                     /\ ~(srcSt = 1 /\ yielded = taken)            \* everything done => End
